@@ -158,17 +158,17 @@ func (rt *runtime) newDate(epoch float64) *object {
 func (rt *runtime) newError(name string, message Value, stackFramesToPop int) *object {
 	switch name {
 	case "EvalError":
-		return rt.newEvalError(message)
+		return rt.newEvalError(message, stackFramesToPop)
 	case "TypeError":
-		return rt.newTypeError(message)
+		return rt.newTypeError(message, stackFramesToPop)
 	case "RangeError":
-		return rt.newRangeError(message)
+		return rt.newRangeError(message, stackFramesToPop)
 	case "ReferenceError":
-		return rt.newReferenceError(message)
+		return rt.newReferenceError(message, stackFramesToPop)
 	case "SyntaxError":
-		return rt.newSyntaxError(message)
+		return rt.newSyntaxError(message, stackFramesToPop)
 	case "URIError":
-		return rt.newURIError(message)
+		return rt.newURIError(message, stackFramesToPop)
 	}
 
 	obj := rt.newErrorObject(name, message, stackFramesToPop)
